@@ -9,9 +9,10 @@ import Driver.OpsTransfer
 import Driver.OpsSpectral
 import Driver.OpsCurv
 import Driver.OpsLevel
+import Driver.OpsFlow
 open LapyVerif.Driver
 
-def allOps : List (String × P String) := femOps ++ diffGeoOps ++ topoOps ++ meshOps ++ solveOps ++ heatOps ++ historyOps ++ ctorOps ++ transferOps ++ spectralOps ++ curvOps ++ levelOps
+def allOps : List (String × P String) := femOps ++ diffGeoOps ++ topoOps ++ meshOps ++ solveOps ++ heatOps ++ historyOps ++ ctorOps ++ transferOps ++ spectralOps ++ curvOps ++ levelOps ++ flowOps
 
 def handle (line : String) : String :=
   let toks := ((line.trimAscii.toString.splitOn " ").filter (· ≠ "")).toArray
